@@ -525,7 +525,7 @@ class ReRaised(KeyError):
     pass
 
 
-FAIL_KINDS = [None, ValueError, HarnessError1, ReRaised, ZeroDivisionError]
+FAIL_KINDS = [None, ValueError, HarnessError1, ReRaised, ZeroDivisionError, SystemExit]  # (wrapped code calling sys.exit() is a failing task too)
 
 
 def t1_pool(ctx, mode):
@@ -577,7 +577,7 @@ def t1_pool(ctx, mode):
         for rnd in range(n_rounds):
             with t.frame("round"):
                 durations = [t.choice(4, f"dur[{rnd}][{i}]") for i in range(n_tasks)]
-                fails = [(t.weighted([12, 3, 2, 2, 1], f"fail[{rnd}][{i}]") if fault_budget else 0) for i in range(n_tasks)]
+                fails = [(t.weighted([12, 3, 2, 2, 1, 1], f"fail[{rnd}][{i}]") if fault_budget else 0) for i in range(n_tasks)]
                 inputs = [1000 * rnd + 3 * i + 1 for i in range(n_tasks)]
                 state.update(durations=durations, fails=fails, inputs=inputs, body_done=[])
 
